@@ -891,3 +891,141 @@ func extractInterceptServer(p *pkgs, out string) {
 	}
 	must(l.finish(out))
 }
+
+// ---------------------------------------------------------------------------
+// protoc-gen-grpchan
+
+func extractStubgen(p *pkgs, out string) {
+	l := newLean("Stubgen.lean", "cmd/protoc-gen-grpchan: the streamCount loop and the templates of generateChanStubs")
+	pk, fd := p.funcDecl(mod+"/cmd/protoc-gen-grpchan", "generateChanStubs")
+	if fd == nil {
+		fail("cmd/protoc-gen-grpchan", "generateChanStubs", "not found")
+		must(l.finish(out))
+		return
+	}
+	// locate `streamCount := 0` and the loop over methods
+	var svcLoop *ast.RangeStmt
+	ast.Inspect(fd, func(n ast.Node) bool {
+		if rs, ok := n.(*ast.RangeStmt); ok && svcLoop == nil {
+			if call, ok := rs.X.(*ast.CallExpr); ok {
+				if sel, ok := call.Fun.(*ast.SelectorExpr); ok && sel.Sel.Name == "GetServices" {
+					svcLoop = rs
+				}
+			}
+		}
+		return true
+	})
+	perService := false
+	var mLoop *ast.RangeStmt
+	if svcLoop != nil {
+		for _, st := range svcLoop.Body.List {
+			if as, ok := st.(*ast.AssignStmt); ok && as.Tok == token.DEFINE && len(as.Lhs) == 1 {
+				if id, ok := as.Lhs[0].(*ast.Ident); ok && id.Name == "streamCount" {
+					if v, ok := constInt(pk, as.Rhs[0]); ok && v == 0 {
+						perService = true
+					}
+				}
+			}
+			if rs, ok := st.(*ast.RangeStmt); ok {
+				if call, ok := rs.X.(*ast.CallExpr); ok {
+					if sel, ok := call.Fun.(*ast.SelectorExpr); ok && sel.Sel.Name == "GetMethods" {
+						mLoop = rs
+					}
+				}
+			}
+		}
+	}
+	if mLoop == nil {
+		fail("cmd/protoc-gen-grpchan", "methodLoop", "loop over GetMethods() not found inside the loop over GetServices()")
+		must(l.finish(out))
+		return
+	}
+	l.printf("def counterResetPerService : Bool := %v\n", perService)
+	// StreamIndex: streamCount in the struct literal
+	idxFrom := ""
+	ast.Inspect(mLoop, func(n ast.Node) bool {
+		if kv, ok := n.(*ast.KeyValueExpr); ok {
+			if k, ok := kv.Key.(*ast.Ident); ok && k.Name == "StreamIndex" {
+				if v, ok := kv.Value.(*ast.Ident); ok {
+					idxFrom = v.Name
+				}
+			}
+		}
+		return true
+	})
+	l.printf("def streamIndexFrom : String := %s\n", leanStr(idxFrom))
+	// the if / else-if / else chain
+	type branch struct {
+		cond            string
+		incr            bool
+		callee, path    string
+		indexed, tail   bool
+	}
+	var branches []branch
+	var chain *ast.IfStmt
+	for _, st := range mLoop.Body.List {
+		if ifs, ok := st.(*ast.IfStmt); ok {
+			chain = ifs
+		}
+	}
+	analyse := func(cond string, body *ast.BlockStmt) branch {
+		b := branch{cond: cond}
+		ast.Inspect(body, func(n ast.Node) bool {
+			switch x := n.(type) {
+			case *ast.IncDecStmt:
+				if id, ok := x.X.(*ast.Ident); ok && id.Name == "streamCount" && x.Tok == token.INC {
+					b.incr = true
+				}
+			case *ast.BasicLit:
+				if x.Kind == token.STRING {
+					if s, ok := constStr(pk, x); ok && strings.Contains(s, "c.ch.") {
+						if strings.Contains(s, "c.ch.NewStream(") {
+							b.callee = "NewStream"
+						} else if strings.Contains(s, "c.ch.Invoke(") {
+							b.callee = "Invoke"
+						}
+						if i := strings.Index(s, `"/{{`); i >= 0 {
+							j := strings.Index(s[i+1:], `"`)
+							b.path = s[i+1 : i+1+j]
+						}
+						b.indexed = strings.Contains(s, "Streams[{{.StreamIndex}}]")
+						b.tail = strings.Contains(s, "SendMsg(in)") && strings.Contains(s, "CloseSend()")
+					}
+				}
+			}
+			return true
+		})
+		return b
+	}
+	for chain != nil {
+		cond := "?"
+		if call, ok := chain.Cond.(*ast.CallExpr); ok {
+			if sel, ok := call.Fun.(*ast.SelectorExpr); ok {
+				cond = sel.Sel.Name
+			}
+		}
+		branches = append(branches, analyse(cond, chain.Body))
+		switch e := chain.Else.(type) {
+		case *ast.IfStmt:
+			chain = e
+		case *ast.BlockStmt:
+			branches = append(branches, analyse("else", e))
+			chain = nil
+		default:
+			chain = nil
+		}
+	}
+	if len(branches) == 0 {
+		fail("cmd/protoc-gen-grpchan", "branches", "if/else chain over the method kind not found")
+	}
+	l.printf("/-- (condition, increments streamCount, callee, path template, indexes Streams[StreamIndex], sends request + CloseSend) in source order -/\n")
+	l.printf("def stubBranches : List (String × Bool × String × String × Bool × Bool) := [")
+	for i, b := range branches {
+		if i > 0 {
+			l.printf(",\n  ")
+		}
+		l.printf("(%s, %v, %s, %s, %v, %v)", leanStr(b.cond), b.incr, leanStr(b.callee), leanStr(b.path), b.indexed, b.tail)
+	}
+	l.printf("]\n")
+	must(l.finish(out))
+}
